@@ -24,6 +24,8 @@ def desc(tp):
             elif f.requires is not None:
                 d = ("cond", d)
             fs.append((f.name, d))
+        if "deserialize" in tp.__dict__ or "serialize" in tp.__dict__:
+            return ("st", fs, "custom")  # same layout; the receive-side quirk is the model's business
         return ("st", fs)
     if _is(tp, zt.basic.FixedIntType):
         bits = tp._bits
